@@ -321,6 +321,7 @@ def lean_stage(check, pid, extra_targets=(), extra_props=()):
     with LeanLock():
         try:
             rep = py2lean.generate(REPO, os.path.join(LEAN_DIR, "IxaiVerif", "Gen"))
+            check.py2lean_report = rep
             info["generated"] = {k: v["sha256"] for k, v in rep.items() if not v.get("error")}
         except py2lean.Unsupported as ex:
             check.tie_failure("py2lean", f"translator rejects the current source: {ex}")
@@ -399,42 +400,62 @@ def lean_stage(check, pid, extra_targets=(), extra_props=()):
     return ok
 
 
-def soft_bridge(check):
-    """ADDITIONAL tie for the incremental explainers: `explain_one` of IncrementalPFI / IncrementalSage is translated statement by
-    statement into `do`-blocks over the effect monad (tools/py2lean_eff.py -> Gen/IncrementalPFI.lean, Gen/IncrementalSage.lean) and
-    Props/GenBridge.lean proves the generated definitions EQUAL to the hand-written pfiExplainM / sageExplainM that the property
-    theorems are about.  When the translator rejects the current source or the bridge no longer checks, the hand-written model is
-    still tied by the correspondence runs, so that alone is not reported: it raises the search budget (like a changed source
-    fingerprint) and is recorded in the evidence.  Returns True when the bridge is checked for the current source."""
-    sys.path.insert(0, os.path.join(VERIF, "tools"))
-    import py2lean_eff
-    info = {"status": "checked", "theorems": {}, "generated_from": {}}
-    check.extra["generated_explainer_bridge"] = info
-    with LeanLock():
-        rep = py2lean_eff.generate(REPO, os.path.join(LEAN_DIR, "IxaiVerif", "Gen"))
-        bad = {k: v["error"] for k, v in rep.items() if v.get("error")}
-        info["generated_from"] = {k: v["sha256"] for k, v in rep.items() if not v.get("error")}
+def soft_stage(check, props, what):
+    """ADDITIONAL (soft) ties: `props` are Props modules that prove a piece of GENERATED code equal to the hand-written model which the
+    property theorems are about and which is tied to the code by the correspondence runs anyway (C11b: ring-buffer bookkeeping of
+    SlidingWindowTracker; C16b: the confidence-bound expression).  When the translator rejects the current source of a generated module
+    they import, or they stop building, that alone is not reported: the search budget is raised and the fact is recorded."""
+    rep = getattr(check, "py2lean_report", {}) or {}
+    info = check.extra.setdefault("soft_ties", {})
+    all_ok = True
+    for name in props:
+        entry = {"what": what, "status": "checked", "theorems": {}}
+        info[name] = entry
+        needed = gen_closure([name])
+        bad = {k: v["error"] for k, v in rep.items() if v.get("error") and k in needed}
         if bad:
-            info["status"] = "unavailable: the statement-level translator rejects the current source"
-            info["translator_errors"] = bad
+            entry["status"] = "unavailable: the translator rejects the current source"
+            entry["translator_errors"] = bad
         else:
-            ns, names = write_audit("GenBridge")
-            proc = subprocess.run(["lake", "build", "IxaiVerif.Audit.GenBridge"], cwd=LEAN_DIR, capture_output=True, text=True)
+            with LeanLock():
+                ns, names = write_audit(name)
+                proc = subprocess.run(["lake", "build", f"IxaiVerif.Audit.{name}"], cwd=LEAN_DIR, capture_output=True, text=True)
             out = proc.stdout + proc.stderr
             for m in re.finditer(r"'(\S+)' depends on axioms: \[([^\]]*)\]", out):
-                info["theorems"][m.group(1)] = [a.strip() for a in m.group(2).split(",") if a.strip()]
+                entry["theorems"][m.group(1)] = [a.strip() for a in m.group(2).split(",") if a.strip()]
             for m in re.finditer(r"'(\S+)' does not depend on any axioms", out):
-                info["theorems"][m.group(1)] = []
-            okc = proc.returncode == 0 and all(f"{ns}.{n}" in info["theorems"] and
-                                               all(a in ALLOWED_AXIOMS for a in info["theorems"][f"{ns}.{n}"]) for n in names)
+                entry["theorems"][m.group(1)] = []
+            okc = proc.returncode == 0 and all(f"{ns}.{n}" in entry["theorems"] and
+                                               all(a in ALLOWED_AXIOMS for a in entry["theorems"][f"{ns}.{n}"]) for n in names)
             if not okc:
-                info["status"] = "bridge no longer checks for the current source (generated explain_one differs from the hand model, or a proof broke)"
-                info["lean_errors"] = [ln for ln in out.splitlines() if ln.startswith("error:")][:5]
-    if info["status"] != "checked":
-        check.boost = max(check.boost, 4)
-        check.stat("generated_explainer_bridge_unavailable")
-        return False
-    return True
+                entry["status"] = "bridge no longer checks for the current source (the generated code differs from the hand model, or a proof broke)"
+                entry["lean_errors"] = [ln for ln in out.splitlines() if ln.startswith("error:")][:5]
+        if entry["status"] != "checked":
+            all_ok = False
+            check.boost = max(check.boost, 4)
+            check.stat("soft_tie_unavailable:" + name)
+    return all_ok
+
+
+def soft_bridge(check, props=("GenBridge", "GenCorollaries")):
+    """ADDITIONAL tie by statement-level translation (tools/py2lean_eff.py): `explain_one` of IncrementalPFI / IncrementalSage and the
+    MarginalImputer / DefaultImputer are regenerated as `do`-blocks (Gen/IncrementalPFI.lean, Gen/IncrementalSage.lean,
+    Gen/MarginalImputer.lean, Gen/DefaultImputer.lean); Props/GenBridge.lean and Props/GenImputer.lean prove the generated definitions
+    EQUAL to the hand-written models the property theorems are about, and Props/GenCorollaries.lean restates C17 / C01 / C02 for the
+    generated code.  Soft (see `soft_stage`): a rejected translation or a bridge that no longer checks raises the search budget and
+    is recorded in the evidence; the hand-written model stays tied by the correspondence runs."""
+    sys.path.insert(0, os.path.join(VERIF, "tools"))
+    import py2lean_eff
+    with LeanLock():
+        rep = py2lean_eff.generate(REPO, os.path.join(LEAN_DIR, "IxaiVerif", "Gen"))
+    merged = dict(getattr(check, "py2lean_report", {}) or {})
+    merged.update(rep)
+    check.py2lean_report = merged
+    ok = soft_stage(check, list(props), "explain_one / imputers regenerated statement by statement from the source = the hand-written model")
+    check.extra["generated_explainer_bridge"] = {"status": "checked" if ok else "unavailable or broken (see soft_ties)",
+                                                 "generated_from": {k: v["sha256"] for k, v in rep.items() if not v.get("error")},
+                                                 "translator_errors": {k: v["error"] for k, v in rep.items() if v.get("error")}}
+    return ok
 
 
 def gen_closure(pids):
